@@ -400,7 +400,7 @@ var casePairs = [][2]rune{
 	{0xFF21, 0xFF41},   // FULLWIDTH A
 }
 
-var caseless = []rune{0x20AC, 0x3042, 0x1F600, 0x2028, 0x00D7}
+var caseless = []rune{0x20AC, 0x3042, 0x1F600, 0x2028, 0xFFFD}
 
 // CaseTableCodePoints lists the non-Latin-1 code points the case model covers.
 func CaseTableCodePoints() []rune {
@@ -447,7 +447,7 @@ func OwnIndex(s []uint16, p string, toIntegerOfP float64) (uint16, bool) {
 	if NumberToString(math.Abs(toIntegerOfP)) != p { // step 3
 		return 0, false
 	}
-	index := toIntegerOfP          // step 5
+	index := toIntegerOfP         // step 5
 	if float64(len(s)) <= index { // step 7
 		return 0, false
 	}
